@@ -413,7 +413,7 @@ func TestC13(t *testing.T) {
 	}
 	// extra histories: height lookup failing at creation => no pubkey may go out; tip moving during negotiation
 	for i, v := range []string{"alice", "bob"} {
-		for _, mode := range []string{"height-fails", "tip-moves"} {
+		for _, mode := range []string{"height-fails", "tip-moves", "backend-falls-behind"} {
 			typ := "out"
 			if v == "bob" {
 				typ = "in"
@@ -434,6 +434,23 @@ func TestC13(t *testing.T) {
 					h.victim.OnCrossing = func(k int64, op string) {
 						if op == "store.write" && k < 12 {
 							go h.p.w.LBTC.Mine(1)
+						}
+					}
+				case "backend-falls-behind":
+					// after the anchor was taken the Liquid backend reports lower tips for a while (a one-block
+					// reorganisation, a fail-over to a node that is still catching up)
+					lookups := 0
+					h.victim.OnCrossing = func(k int64, op string) {
+						if op != "lbtc.height" {
+							return
+						}
+						lookups++
+						if inc := h.victim.Inc(); inc != nil && lookups >= 2 && lookups <= 4 {
+							base := h.p.w.LBTC.Height()
+							drop := uint32(lookups - 1)
+							inc.LbtcWat.HeightOverride = func() (uint32, error) { return base - drop, nil }
+						} else if inc != nil {
+							inc.LbtcWat.HeightOverride = nil
 						}
 					}
 				}
